@@ -4,11 +4,11 @@ import copy
 NS = ['My', 'Hal', 'Sub', 'A', 'B', 'Proj']
 ITF = ['IApi', 'IHal', 'ICtl', 'IToaster']
 EXT = ['Str', 'Int', 'T', 'MilliSeconds', 'PIncident']
-EXTV = ['std::string', 'int', 'size_t', '::Sub::MyLongNamedType', '::My::Data<int>', 'std::shared_ptr<::Incident>']
+EXTV = ['std::string', 'int', 'size_t', '::Sub::MyLongNamedType', '::My::Data<int>', 'std::shared_ptr<::Incident>', 'const char*', '::Incident*']
 PORTS = ['api', 'ctl', 'hal', 'hal2', 'cord', 'led', 'p1', 'x_y', 'Api2', 'q']
-EVIN = ['Claim', 'Release', 'Drop', 'Use', 'Initialize', 'Go', 'Set', 'Cancel']
-EVOUT = ['Done', 'Fail', 'Went', 'Ok', 'Ready']
-FORMALS = ['msg', 'n', 'a', 'b', 'value', 'incident', 'waitMs']
+EVIN = ['Claim', 'Release', 'Drop', 'Use', 'Initialize', 'Go', 'Set', 'Cancel', 'TryClaim', 'ReleaseAll', 'UseUp']   # some contain others
+EVOUT = ['Done', 'Fail', 'Went', 'Ok', 'Ready', 'DoneAll', 'Okay']
+FORMALS = ['msg', 'n', 'a', 'b', 'value', 'incident', 'waitMs', 'val', 'n2']
 
 
 def rand_scope(rng, maxlen=3):
@@ -200,6 +200,10 @@ def find_decl(tree, pred):
     return None
 
 
+FORCE_KIND = None     # set by a caller that wants the 'other kind' faults with one particular kind of declaration
+OTHER_KINDS = ['enum', 'extern', 'foreign', 'comp', 'sys', 'subint', 'itf']
+
+
 def faults(rng, case):
     """-> list of (name, expected 'error', mutated case) single-fault variations of a valid case"""
     out = []
@@ -213,6 +217,15 @@ def faults(rng, case):
     info = case['info']
     prov = [p for p in info['ports'] if p[2] == 'provides']
     req = [p for p in info['ports'] if p[2] == 'requires']
+    def other_kind(name, exclude=()):
+        """a declaration of some kind (not one of `exclude`) under the simple name `name`"""
+        kinds = {'enum': ['enum', list(name), ['A', 'B']], 'extern': ['extern', list(name), 'int'], 'foreign': ['foreign', list(name), []],
+                 'comp': ['comp', list(name), []], 'sys': ['sys', list(name), [], [], []], 'subint': ['subint', list(name), 0, 3],
+                 'itf': ['itf', list(name), [], []]}
+        if FORCE_KIND and FORCE_KIND not in exclude:
+            return kinds[FORCE_KIND]
+        return kinds[rng.choice(sorted(k for k in kinds if k not in exclude))]
+
     variant('encapsulee-unknown', lambda c: c['cfg'].__setitem__('enc', c['cfg']['enc'][:-1] + ['Nope']))
     variant('encapsulee-is-interface', lambda c: c['cfg'].__setitem__('enc', list(info['itfs'][0]['fqn'])))
     variant('encapsulee-duplicate', lambda c: place(c['file'], c['cfg']['enc'][:-1], ['extern', [c['cfg']['enc'][-1]], 'dup']))
@@ -225,7 +238,7 @@ def faults(rng, case):
                 if q[0] == p[0]:
                     q[1] = newtype
         variant('port-type-unresolvable', lambda c: retype(c, ['NoSuchItf']))
-        variant('port-type-wrong-kind', lambda c: (place(c['file'], [], ['extern', ['JustAType'], 'int']), retype(c, ['JustAType'])))
+        variant('port-type-wrong-kind', lambda c: (place(c['file'], [], other_kind(['JustAType'], exclude=('itf',))), retype(c, ['JustAType'])))
         variant('port-type-ambiguous', lambda c: (place(c['file'], [], ['itf', ['Amb'], [], []]),
                                                   place(c['file'], info['comp_scope'], ['itf', ['Amb'], [], []]) if info['comp_scope'] else place(c['file'], [], ['itf', ['Amb'], [], []]),
                                                   retype(c, ['Amb'])))
@@ -235,7 +248,7 @@ def faults(rng, case):
             tname = next(q[1] for q in comp[2] if q[0] == p[0])
             if len(tname) != 1:
                 return False
-            place(c['file'], [], ['enum', list(tname), ['A', 'B']])
+            place(c['file'], [], other_kind(tname, exclude=('itf',)))
         variant('port-type-ambiguous-other-kind', ambiguous_other_kind)
     variant('select-unknown-port', lambda c: c['cfg']['ports'].__setitem__('r', [['s', ['ghost']], ['w', 'remaining']]))
     variant('select-both', lambda c: c['cfg']['ports'].__setitem__('r', [['s', ['hal']], ['s', ['hal']]]))
@@ -309,7 +322,13 @@ def faults(rng, case):
                     for e in d[3]:
                         for f in e[3]:
                             if not hit[0]:
-                                f[1] = {'missing': ['NoSuchType'], 'enum': [d[2][0][1][0]] if d[2] else ['NoSuchType']}[how]
+                                if how == 'ambiguous':
+                                    # a declaration of another kind under the formal type's simple name, on the interface's scope chain
+                                    if len(f[1]) != 1:
+                                        continue
+                                    place(c['file'], [], other_kind(f[1], exclude=('extern',)))
+                                else:
+                                    f[1] = {'missing': ['NoSuchType'], 'enum': [d[2][0][1][0]] if d[2] else ['NoSuchType']}[how]
                                 hit[0] = True
                 elif d[0] == 'ns':
                     walk(d[2])
@@ -317,6 +336,7 @@ def faults(rng, case):
         return hit[0]
     variant('formal-type-unresolvable', lambda c: break_formal(c, 'missing'))
     variant('formal-type-is-enum', lambda c: break_formal(c, 'enum'))
+    variant('formal-type-ambiguous-other-kind', lambda c: break_formal(c, 'ambiguous'))
     variant('suffix-and-name-empty', lambda c: (c['cfg'].__setitem__('file', '.dzn') or c['cfg'].__setitem__('suffix', '')))
     variant('prefix-invalid-id', lambda c: c['cfg'].__setitem__('sf_prefix', ['9x']))
     return out
